@@ -93,6 +93,7 @@ class FuncFacts:
         self.func = func
         self._bf = {}
         self._assigned = {}
+        self._aliases = {}
 
     def _block_assigns(self, cfg, blk):
         key = (id(cfg), blk['id'])
@@ -112,7 +113,18 @@ class FuncFacts:
                     return True
                 a = self._block_assigns(cfg, blk)
                 return bool(a and (a & refs_in(cond)))
-            self._bf[id(cfg)] = cfg.branch_facts(kill)
+            texts = {}
+            aliases = self._aliases.setdefault(id(cfg), {})
+
+            def canon(cid):
+                n = self.func.nodes.get(cid)
+                if n is None:
+                    return cid
+                t = render(n)
+                c0 = texts.setdefault(t, cid)
+                aliases.setdefault(c0, set()).add(cid)
+                return c0
+            self._bf[id(cfg)] = cfg.branch_facts(kill, canon)
         return self._bf[id(cfg)]
 
     def conds_at(self, node):
@@ -127,10 +139,13 @@ class FuncFacts:
         if fin is None:
             return None  # unreachable
         out = []
-        for cid, truth in fin:
-            cn = self.func.nodes.get(cid)
-            if cn is not None:
-                _decompose(cn, truth, out)
+        al = self._aliases.get(id(cfg), {})
+        for cid0, truth in fin:
+            # every condition with the same text as the canonical one carries the same fact
+            for cid in sorted(al.get(cid0, {cid0})):
+                cn = self.func.nodes.get(cid)
+                if cn is not None:
+                    _decompose(cn, truth, out)
         # conditions evaluated earlier in the same block do not branch (a block has one terminator), so done.
         # A lambda body inherits the facts holding where the lambda expression is created *only* for
         # by-value immutable data; we do not assume that.
